@@ -1642,6 +1642,22 @@ class Store:
 
             divide = update.pop('_divide', None)
             if divide is not None:
+                mother = divide['mother']
+                if not isinstance(mother, (tuple, list)) \
+                        and mother in update and mother in self.inner:
+                    # what this update holds for the mother herself is
+                    # applied while she is still there (as the entry of
+                    # a child that is deleted is)
+                    (
+                        inner_topology, inner_processes, inner_steps,
+                        inner_flows, inner_deletions, _
+                    ) = self.inner[mother].apply_update(
+                        update.pop(mother), state)
+                    topology_updates.extend(inner_topology or [])
+                    process_updates.extend(inner_processes or [])
+                    step_updates.extend(inner_steps or [])
+                    flow_updates.extend(inner_flows or [])
+                    deletions.extend(inner_deletions or [])
                 (
                     divide_processes, divide_steps, divide_flow,
                     divide_topology, divide_deletions
